@@ -72,6 +72,12 @@ OpsInsert ==
         : k \in Keys, t \in Times,
           o \in [size : {<<>>}, sizes : {"DEFAULT", "7"}, sri : {<<>>} \cup { <<x>> : x \in Addrs },
                  time : {"DEFAULT"}, meta : {"DEFAULT"} \cup Metas, raw : {"DEFAULT"}] }
+\* a record no reader could parse back (see Cacache!Storable): refused, nothing changes
+OpsInsertDeep ==
+    { [op |-> "index_insert", key |-> k, now |-> t, now_ok |-> TRUE,
+       opts |-> [size |-> <<>>, sizes |-> "DEFAULT", sri |-> <<x>>, time |-> "DEFAULT", meta |-> m,
+                 raw |-> "DEFAULT", storable |-> FALSE]]
+        : k \in Keys, t \in Times, x \in Addrs, m \in Metas }
 OpsRemove ==
     { [op |-> "remove", key |-> k, now |-> t, now_ok |-> TRUE] : k \in Keys, t \in Times }
     \cup { [op |-> "remove_hash", sri |-> <<x>>] : x \in Addrs }
@@ -104,7 +110,11 @@ OpsLink ==
 \* streaming handles: one handle id per call index keeps ids unique
 HandleOps(h) ==
     UNION { UNION { { [op |-> "open_writer", h |-> h, key |-> k, algo |-> a, opts |-> o, plan |-> d]
-                        : k \in Keys, o \in OptsFor(a, d) }
+                        : k \in Keys, o \in OptsFor(a, d) \cup
+                            (IF "deep" \in Fam
+                             THEN { [size |-> <<>>, sri |-> <<>>, time |-> "DEFAULT", meta |-> m, raw |-> "DEFAULT",
+                                     storable |-> FALSE] : m \in Metas }
+                             ELSE {}) }
                     \cup { [op |-> "open_writer", h |-> h, algo |-> a, opts |-> o, plan |-> d]
                         : o \in OptsFor(a, d) }
                   : d \in Datas }
@@ -136,6 +146,7 @@ OpenReaderOps(h) ==
 OpSet ==
     (IF "write"   \in Fam THEN OpsWrite ELSE {})
     \cup (IF "insert"  \in Fam THEN OpsInsert ELSE {})
+    \cup (IF "deep"    \in Fam THEN OpsInsertDeep ELSE {})
     \cup (IF "remove"  \in Fam THEN OpsRemove ELSE {})
     \cup (IF "lookup"  \in Fam THEN OpsLookup ELSE {})
     \cup (IF "extract" \in Fam THEN OpsExtract ELSE {})
@@ -240,7 +251,8 @@ CommitVerdict ==
            LET w == hd[op.h]
                good_sri == (w.opts.sri = <<>>) \/ Matches(w.opts.sri, H(w.algo, op.fed))
                good_size == (w.opts.size = <<>>) \/ (w.opts.size[1] = w.n) IN
-           /\ (good_sri /\ good_size) => res'.ok
+           /\ (good_sri /\ good_size /\ (w.key = <<>> \/ Storable(w.opts))) => res'.ok
+           /\ (good_sri /\ good_size /\ w.key # <<>> /\ ~Storable(w.opts)) => (~res'.ok /\ res'.e = "Serde")
            /\ ~good_sri => (~res'.ok /\ res'.e = "Integrity")
            /\ (good_sri /\ ~good_size) => (~res'.ok /\ res'.e = "SizeMismatch")
       ]_mvars
